@@ -7,6 +7,7 @@ import (
 	"go/ast"
 	"go/token"
 	"go/types"
+	"strings"
 )
 
 // stringDecoderClass analyses a function used to decode the raw content of a JSON string literal.
@@ -460,23 +461,26 @@ func encoderPairing(c *Ctx, rule string) {
 		if fd == nil {
 			continue
 		}
-		for _, r := range returnsOf(fd.Body) {
-			if len(r.Results) == 1 {
-				if call, ok := unparen(r.Results[0]).(*ast.CallExpr); ok && c.callee(call) != nil {
-					encs = append(encs, c.callee(call))
+		// value encoder: the function applied to the wrapper's payload on every returning path
+		paths := c.view(fd).normalizePaths(c.serSX().Run(fd))
+		for _, p := range paths {
+			if p.Why == "" && p.End == "return" && len(p.Vals) == 1 {
+				if call, ok := p.Vals[0].(TCall); ok && call.Fun != nil {
+					encs = append(encs, call.Fun)
 				}
 			}
 		}
 	}
 	if obj := c.Inv().Object(); obj != nil {
 		if fd := c.Decl("(*" + obj.Named.Obj().Name() + ").serialize"); fd != nil {
-			for _, l := range spineLoops(c, fd) {
-				ast.Inspect(l.Stmt.Body, func(n ast.Node) bool {
-					if call, ok := n.(*ast.CallExpr); ok && len(call.Args) == 1 && l.Key != nil && c.obj(call.Args[0]) == l.Key && c.callee(call) != nil {
-						encs = append(encs, c.callee(call))
+			// key encoder: the encoder of the KEY token in the folded emission for one field
+			{
+				toks, _ := c.emitted(fd, c.view(fd).normalizePaths(c.serSX().Run(fd)), 1)
+				for _, t := range toks {
+					if t.Kind == "KEY" && t.Enc != nil {
+						encs = append(encs, t.Enc)
 					}
-					return true
-				})
+				}
 			}
 		}
 	}
@@ -650,14 +654,20 @@ func c16Guard(c *Ctx) {
 				msg = "the prefix is not empty"
 				break
 			}
-			rp, ok := ind.Args[3].(TCall)
-			good = ok && rp.Fun != nil && rp.Fun.FullName() == "strings.Repeat" && len(rp.Args) == 2 && isParamTerm(rp.Args[1], indent)
-			if good {
-				sp, oks := isConstStringTerm(rp.Args[0])
-				good = oks && sp == " "
+			// the indentation unit: folded for every admissible indent (0..10) it must be exactly that many spaces
+			good = true
+			for k := int64(0); k <= 10 && good; k++ {
+				se := &strEnv{hook: func(t Term) (sval, bool) {
+					if isParamTerm(t, indent) {
+						return sval{K: 'i', I: k}, true
+					}
+					return sval{}, false
+				}}
+				sv, ok := se.val(ind.Args[3])
+				good = ok && se.panic == "" && sv.K == 's' && sv.S == strings.Repeat(" ", int(k))
 			}
 			if !good {
-				msg = "the indentation is not strings.Repeat(\" \", indent)"
+				msg = "the indentation unit is not `indent` spaces for every indent in 0..10"
 				break
 			}
 			ret, ok := (TCall{}), false
